@@ -112,6 +112,9 @@ pub struct ShardState {
     pub exhaustive_spaces: BTreeMap<String, u64>,
     pub done: bool,
     pub harness_errors: Vec<String>,
+    /// failures that matched a listed known finding (not counted towards the failure cap)
+    #[serde(default)]
+    pub known_hits: BTreeMap<String, u64>,
 }
 
 pub fn fnv(data: &[u8]) -> u64 {
@@ -280,6 +283,7 @@ pub struct Ctx {
     shrinks_done: u32,
     /// failures whose signature matches are counted as resource-exhaustion events, not reported
     pub resource_filter: Option<fn(&str) -> bool>,
+    findings: Vec<Finding>,
 }
 
 fn now_ms(t0: Instant) -> u64 {
@@ -312,7 +316,7 @@ impl Ctx {
         *self.st.classes.entry(c.to_string()).or_insert(0) += n;
     }
     pub fn too_many_failures(&self) -> bool {
-        self.st.failures.len() >= self.max_failures
+        self.st.failures.iter().filter(|f| match_finding(&self.findings, self.id, &f.sig).is_none()).count() >= self.max_failures
     }
     pub fn out_of_time(&self) -> bool {
         self.deadline.map(|d| Instant::now() > d).unwrap_or(false)
@@ -444,9 +448,17 @@ impl Ctx {
     }
 
     fn push_failure(&mut self, case: &Value, f: &Fail, shrunk: bool) {
+        if let Some(k) = match_finding(&self.findings, self.id, &f.sig) {
+            let id = k.id.clone();
+            let n = self.st.known_hits.entry(id).or_insert(0);
+            *n += 1;
+            if *n > 1 {
+                return;
+            }
+        }
         // keep at most 3 failures per signature
         let same = self.st.failures.iter().filter(|x| x.sig == f.sig).count();
-        if same >= 3 || self.st.failures.len() >= self.max_failures {
+        if same >= 3 || self.too_many_failures() {
             self.st.failure_overflow += 1;
             return;
         }
@@ -524,6 +536,9 @@ impl Ctx {
             let case = to_json(&v);
             let Some(ev) = self.run_case(&case, || eval(&v)) else { continue };
             if let Some(f0) = ev.fail {
+                if match_finding(&self.findings, self.id, &f0.sig).is_some() {
+                    continue;
+                }
                 self.shrinks_done += 1;
                 if self.shrinks_done > 4 {
                     continue;
@@ -885,6 +900,7 @@ pub fn shard_main(prop: &'static Prop, tier: Tier, seed: u64, shard: usize, nsha
         last_lazy: None,
         shrinks_done: 0,
         resource_filter: None,
+        findings: load_findings(),
     };
     let h = std::thread::Builder::new()
         .stack_size(1 << 30)
@@ -1111,6 +1127,9 @@ pub fn run_check(prop: &'static Prop, tier: Tier, seed: u64) -> i32 {
         m.nontrivial_total += st.nontrivial_total;
         m.resource_events += st.resource_events;
         m.failure_overflow += st.failure_overflow;
+        for (c, n) in st.known_hits {
+            *m.known_hits.entry(c).or_insert(0) += n;
+        }
         for (c, n) in st.classes {
             *m.classes.entry(c).or_insert(0) += n;
         }
@@ -1164,10 +1183,13 @@ pub fn run_check(prop: &'static Prop, tier: Tier, seed: u64) -> i32 {
     let mut violations: Vec<Failure> = vec![];
     for f in &m.failures {
         if let Some(k) = match_finding(&findings, prop.id, &f.sig) {
-            *known_hits.entry(k.id.clone()).or_insert(0) += 1;
+            known_hits.entry(k.id.clone()).or_insert(0);
         } else {
             violations.push(f.clone());
         }
+    }
+    for (id, n) in &m.known_hits {
+        *known_hits.entry(id.clone()).or_insert(0) += n;
     }
     // replay listed repros
     let mut known_lines: Vec<String> = vec![];
